@@ -149,13 +149,68 @@ def run(ctx):
     dynrun.sweep(ctx, ctx.rng, 400 if ctx.tier == "thorough" else 40, {"C10"})
     ctx.notes.append("files changing during the run: %s scheduled concurrent-writer runs (vlib/dynrun.py), clauses 'entries and lines correspond in order', "
                      "'the first size bytes of a unique entry hash to hash', 'an extern entry is empty'" % (400 if ctx.tier == "thorough" else 40))
+    if not ctx.has_failing_input():
+        odd_names_part(ctx)
     ctx.assumptions += ["zstd and tar crates / python tarfile implement the formats (decodability with standard tools is observed, not proved)"]
+
+
+def odd_names_part(ctx):
+    """a tree with files whose names hold a carriage return or a line feed: the one-line-per-file manifest cannot carry them (a line-wise reader
+    - vsb's own BufRead::lines among them - does not read such a path back), so they must be refused with an error and every line that IS
+    written must be free of CR / LF; whatever is published must restore with `vsb restore` to exactly the files its manifest names"""
+    import os
+    import shutil
+    from vlib import build, runs, slevel
+    build.ensure_vsb()
+    build.ensure_vsbh()
+    rng = ctx.rng
+    with slevel.Sandbox("c10n") as sb:
+        w = runs.World(sb, rng, 3, 3)
+        top = os.path.join(w.src, w.items[0])
+        w.write_file(os.path.join(top, "a.txt"), b"plain")
+        w.write_file(os.path.join(top, "keeper"), b"k" * 100)
+        odd = [b"notes.txt\r", b"mid\rdle.txt", b"line\nfeed", b"crlf\r\n"]
+        for nm in odd:
+            with open(os.path.join(os.fsencode(top), nm), "wb") as f:
+                f.write(b"odd name " + nm)
+        res = w.backup(runs.BASE + 3600)
+        ctx.evaluations += 1
+        ctx.count("odd-names.runs")
+        dec = w.decode()
+        la, _ = runs.listing(dec)
+        finals = [(g, b) for g, fin, _, _ in la for b in fin]
+        if res["exit"] == 0:
+            ctx.violation("odd-names", "a tree with file names holding CR / LF is backed up with exit 0 (such names cannot be recorded in a one-line-per-file manifest)",
+                          {"names": [n.decode("latin-1") for n in odd], "output": res["out"][-500:]})
+            return
+        if not finals:
+            return          # nothing published: nothing to examine
+        g, b = finals[-1]
+        ent = [e for gg in dec["groups"] if gg["name"] == g for e in gg["entries"] if e["name"] == b][0]
+        lines = runs.parse_manifest(ent)
+        if lines is None:
+            ctx.violation("odd-names", "the backup published from a tree with CR / LF names has a manifest that does not parse", {"backup": b})
+            return
+        for l in lines:
+            if b"\r" in bytes(l["path"]) or b"\n" in bytes(l["path"]):
+                ctx.violation("odd-names", "the manifest of %s holds the path %r: a carriage return / line feed inside a one-line-per-file record - a line-wise reader "
+                              "(vsb's own) reads another path back than the archive entry bears" % (b, bytes(l["path"])), {"backup": b, "path_hex": bytes(l["path"]).hex()})
+                return
+        out = sb.path("restored")
+        rc, text = sb.vsb(["restore", os.path.join(w.st, g, b), out])
+        ctx.evaluations += 1
+        if rc != 0:
+            ctx.violation("odd-names", "the backup published from a tree with CR / LF names does not restore (exit %d): %s" % (rc, slevel.errors_of(text)[:2]), {"backup": b})
+        shutil.rmtree(out, ignore_errors=True)
 
 
 def replay(ctx, doc):
     if "rules" in doc:
         from vlib import dynrun
         return dynrun.replay_case(ctx, doc, {"C10"})
+    if "case" not in doc and "first_differing_case" not in doc:
+        print("replay: re-run ./check C10 with the same VERIF_SEED; the scenario is in the replay file")
+        return 0
     from vlib import impl, model
     c = sexp.loads(doc.get("case") or doc.get("first_differing_case"))
     r = impl.run_lines([c])[0]
